@@ -257,6 +257,8 @@ func emitC02(c *Ctx, p *tak.Position, dump bool) {
 	tok := encPos(p)
 	out := c.Emit("over " + tok)
 	c.Emit("sover " + tok)
+	c.Count("result=" + c.Emit("result "+tok))
+	c.Emit("sresult " + tok)
 	f := strings.Fields(out)
 	if len(f) >= 3 {
 		c.Count("over=" + f[0] + "." + f[1] + "." + f[2])
